@@ -222,6 +222,136 @@ def _install() -> None:
              [h for x in list(a) + list(k.values()) if isinstance(x, (list, tuple)) for h in x])
 
 
+# -------------------------------------------------------------------- functional oracles on the repository's own tests
+# (PFHEDGE_VERIF_CALLS = comma separated families): every call of a public entry point whose meaning the specifications
+# define is recorded WITH its arguments and its result; the owning check judges each record with the reference that is bound
+# to the TLA+ module (PnL.tla / Payoff.tla / Grid.tla / Clamp.tla).  Nothing is judged here.
+CALLS = [c for c in os.environ.get("PFHEDGE_VERIF_CALLS", "").split(",") if c]
+_calls: List[Dict[str, Any]] = []
+_per_test: Dict[Any, int] = {}
+MAX_NUMEL = 4000
+MAX_PER_TEST = 12
+
+
+def _enc(x: Any) -> Any:
+    if isinstance(x, torch.Tensor):
+        if x.is_complex():
+            return {"t": "complex", "s": list(x.shape), "big": True}
+        shape, n0 = list(x.shape), (x.shape[0] if x.dim() else 1)
+        if x.numel() > MAX_NUMEL:
+            # the leading dimension indexes independent paths in every recorded family: keep the first rows only
+            if x.dim() < 2 or x.numel() // x.shape[0] > MAX_NUMEL:
+                return {"t": _dt(x.dtype), "s": shape, "big": True}
+            n0 = max(1, MAX_NUMEL // (x.numel() // x.shape[0]))
+            x = x[:n0]
+        if x.dtype == torch.bool:
+            return {"t": "bool", "s": shape, "n0": n0, "v": x.detach().flatten().tolist()}
+        return {"t": _dt(x.dtype) if x.dtype.is_floating_point else "int", "s": shape, "n0": n0, "v": x.detach().double().flatten().tolist()}
+    if isinstance(x, (bool, int, float, str)) or x is None:
+        return x
+    if isinstance(x, (list, tuple)):
+        return [_enc(y) for y in x]
+    if isinstance(x, dict):
+        return {str(k): _enc(v) for k, v in x.items()}
+    return {"repr": repr(x)[:80]}
+
+
+def _record(family: str, fn: str, args: Dict[str, Any], out: Any, error: Any = None) -> None:
+    test = _state["test"]
+    if test is None:
+        return
+    k = (test, family, fn)
+    _per_test[k] = _per_test.get(k, 0) + 1
+    if _per_test[k] > MAX_PER_TEST:
+        return
+    try:
+        _calls.append({"family": family, "fn": fn, "test": test, "args": {n: _enc(v) for n, v in args.items()}, "out": _enc(out), "error": error})
+    except Exception as e:          # the recorder must never disturb the test
+        _calls.append({"family": family, "fn": fn, "test": test, "unencodable": repr(e)[:100]})
+
+
+def _rebind(module_attr_name: str, orig: Any, new: Any) -> None:
+    """`from pfhedge.nn.functional import pl` in library modules bound the original before the plugin ran."""
+    import sys
+    for m in list(sys.modules.values()):
+        if m is not None and getattr(m, "__name__", "").startswith("pfhedge") and getattr(m, module_attr_name, None) is orig:
+            setattr(m, module_attr_name, new)
+
+
+def _install_oracles() -> None:
+    import inspect
+    import pfhedge.nn.functional as F
+    import pfhedge.instruments as inst
+    from pfhedge.instruments import BaseDerivative
+
+    def wrap_function(family: str, name: str) -> None:
+        orig = getattr(F, name)
+        sig = inspect.signature(orig)
+
+        @functools.wraps(orig)
+        def wrapper(*a, **k):
+            try:
+                bound = sig.bind(*a, **k)
+                bound.apply_defaults()
+                args = {n: (v.clone() if isinstance(v, torch.Tensor) else v) for n, v in bound.arguments.items()}
+            except Exception:
+                return orig(*a, **k)
+            try:
+                out = orig(*a, **k)
+            except Exception as e:
+                _record(family, name, args, None, type(e).__name__)
+                raise
+            _record(family, name, args, out)
+            return out
+        setattr(F, name, wrapper)
+        _rebind(name, orig, wrapper)
+
+    if "pl" in CALLS:
+        wrap_function("pl", "pl")
+    if "clamp" in CALLS:
+        wrap_function("clamp", "clamp")
+        wrap_function("clamp", "leaky_clamp")
+    if "payoff" in CALLS:
+        for name in ("european_payoff", "lookback_payoff", "american_binary_payoff", "european_binary_payoff", "european_forward_start_payoff"):
+            wrap_function("payoff", name)
+        for cname in dir(inst):
+            cls = getattr(inst, cname)
+            if isinstance(cls, type) and issubclass(cls, BaseDerivative) and "payoff_fn" in cls.__dict__:
+                orig = cls.__dict__["payoff_fn"]
+
+                def payoff_fn(self, __orig=orig, __cname=cname):
+                    out = __orig(self)
+                    try:
+                        ul = self.ul()
+                        attrs = {a: getattr(self, a) for a in ("strike", "call", "maturity", "start") if hasattr(self, a)}
+                        _record("payoff", "class:" + __cname, {"spot": ul.spot.clone(), "dt": ul.dt, **attrs}, out)
+                    except Exception:
+                        pass
+                    return out
+                cls.payoff_fn = payoff_fn
+    if "grid" in CALLS:
+        orig_sim = BaseDerivative.simulate
+
+        def simulate(self, *a, **k):
+            out = orig_sim(self, *a, **k)
+            try:
+                shapes = {}
+                for uname, u in self.named_underliers():
+                    for bname, b in u.named_buffers():
+                        shapes[f"{uname}.{bname}"] = list(b.shape)
+                _record("grid", "simulate:" + type(self).__name__, {"maturity": getattr(self, "maturity", None), "dts": [u.dt for u in self.underliers()],
+                                                                     "n_paths": k.get("n_paths", a[0] if a else 1), "shapes": shapes, "prims": [type(u).__name__ for u in self.underliers()],
+                                                                     # (tests replace a primary's simulate by a stub to inject their own series: not a simulation)
+                                                                     "sim_from": [getattr(type(u).simulate, "__module__", "?") for u in self.underliers()]}, None)
+            except Exception:
+                pass
+            return out
+        BaseDerivative.simulate = simulate
+        for sub in _all_subclasses(BaseDerivative):
+            if "simulate" in sub.__dict__:
+                sub.simulate = simulate
+
+
 def _all_subclasses(cls):
     for sub in cls.__subclasses__():
         yield sub
@@ -232,6 +362,8 @@ def pytest_configure(config):
     if OUT:
         import pfhedge.features  # noqa: F401  (registers the feature classes)
         import pfhedge.nn  # noqa: F401
+        if CALLS:
+            _install_oracles()
         _install()
 
 
@@ -248,4 +380,4 @@ def pytest_sessionfinish(session, exitstatus):
         return
     streams = [{"cls": s["cls"], "test": s["test"], "init": s["init"], "events": s["events"]} for s in _state["live"] if s["init"] is not None and s["events"]]
     with open(OUT, "w") as f:
-        json.dump({"dtype_streams": streams, "purity": _state["purity"]}, f)
+        json.dump({"dtype_streams": streams, "purity": _state["purity"], "calls": _calls}, f)
